@@ -183,6 +183,8 @@ func errClass(err error) string {
 		return "err-arg"
 	case strings.Contains(m, "no file / in-memory"):
 		return "err-nofile"
+	case strings.Contains(m, "is not valid UTF-8"):
+		return "err-name"
 	case strings.Contains(m, "couldn't find roots"):
 		return "noroots"
 	case err == memfile.ErrInjected || strings.Contains(m, "injected I/O error"):
